@@ -379,10 +379,6 @@ func main() {
 				fmt.Printf("%-8s %-7s %-28s N=%-2d TP=%-2d %v %s\n", m.Pkg, m.Kind, m.Name, m.N, m.TP, m.Methods, m.Pos)
 				continue
 			}
-			if p.name == "future" {
-				g.skip(m, "by design: asynchronous, results only observable through executors; the future package is property C06's subject")
-				continue
-			}
 			e := emitters[m.Pkg+"."+m.Kind+"."+m.Fam]
 			if e == nil {
 				g.skip(m, "no defining equation known to the generator")
@@ -401,13 +397,10 @@ func main() {
 	fmt.Fprintf(&b, "// Limits at generation time: max.Func=%d max.Product=%d max.Compose=%d; %d sub-checks.\n\n", mx["Func"], mx["Product"], mx["Compose"], g.subs)
 	fmt.Fprintf(&b, "package c14\n\nimport (\n\t\"testing\"\n\n")
 	for _, p := range packages {
-		if p.name == "future" {
-			continue
-		}
 		fmt.Fprintf(&b, "\t%q\n", p.imp)
 	}
 	fmt.Fprintf(&b, "\t\"pgregory.net/rapid\"\n\n\t\"verifharness/kit\"\n)\n\n")
-	fmt.Fprintf(&b, "var (\n\t_ = fp.Unit{}\n\t_ = as.Tuple2[int, int]\n\t_ = curried.Func2[int, int, int]\n\t_ = hlist.Empty\n\t_ = product.Tuple2[int, int]\n\t_ = fn1.Merge2[int, int, int]\n\t_ = unit.Func0\n\t_ = option.Some[int]\n\t_ = try.Success[int]\n\t_ = eq.Given[int]\n\t_ = ord.Given[int]\n\t_ = hash.Number[int]\n\t_ = monoid.String\n\t_ = clone.Given[int]\n)\n\n")
+	fmt.Fprintf(&b, "var (\n\t_ = fp.Unit{}\n\t_ = as.Tuple2[int, int]\n\t_ = curried.Func2[int, int, int]\n\t_ = hlist.Empty\n\t_ = product.Tuple2[int, int]\n\t_ = fn1.Merge2[int, int, int]\n\t_ = unit.Func0\n\t_ = option.Some[int]\n\t_ = try.Success[int]\n\t_ = eq.Given[int]\n\t_ = ord.Given[int]\n\t_ = hash.Number[int]\n\t_ = monoid.String\n\t_ = clone.Given[int]\n\t_ = future.Successful[int]\n)\n\n")
 	fmt.Fprintf(&b, "const (\n\tgenMaxFunc = %d\n\tgenMaxProduct = %d\n\tgenMaxCompose = %d\n)\n\n", mx["Func"], mx["Product"], mx["Compose"])
 	for i := 1; i <= g.maxT; i++ {
 		fmt.Fprintf(&b, "type T%d int\n", i)
